@@ -6,7 +6,8 @@ from vlib import coq_value, coq_hex, jb, js, ji, jts, jo, ja
 import gen
 
 ID = "C25"
-THEOREMS = ["C25_int", "C25_int_default_base", "C25_int_min_refuted", "C25_ntoa_aton", "C25_aton_ntoa", "C25_ntop_pton_v4",
+THEOREMS = ["C25_int", "C25_int_default_base", "C25_int_min_refuted", "C25_ntoa_aton", "C25_aton_ntoa", "C25_aton_ntoa_accepted", "C25_ntop_pton_v4",
+            "C25_pton_ntop_accepted_v4", "C25_to6_to4_accepted",
             "C25_ipv6_text", "C25_ntop_pton_v6", "C25_ipv4_mapped", "C25_entries", "C25_flatten",
             "C25_flatten_single_char_separator", "C25_flatten_bordered_separator_refuted", "C25_unix_from_to",
             "C25_unix_to_from", "C25_unix_to_from_exact", "C25_calendar_inverse", "C25_timestamp_text_layouts_partial",
